@@ -1790,15 +1790,25 @@ feature! {
         }
 
         fn register_callsite(&self, metadata: &'static Metadata<'static>) -> Interest {
-            // Return highest level of interest.
-            let mut interest = Interest::never();
+            // `enabled` requires *every* subscriber in the vector to enable a
+            // span or event, so the combined interest must agree with that:
+            // `never` if any subscriber will never enable the callsite,
+            // `always` only if all of them always will, and `sometimes`
+            // otherwise. Every subscriber is still asked, so that each one can
+            // perform its own per-callsite registration.
+            let mut interest = Interest::always();
+            let mut any_never = false;
             for s in self {
                 let new_interest = s.register_callsite(metadata);
-                if (interest.is_sometimes() && new_interest.is_always())
-                    || (interest.is_never() && !new_interest.is_never())
-                {
+                if new_interest.is_never() {
+                    any_never = true;
+                } else if new_interest.is_sometimes() {
                     interest = new_interest;
                 }
+            }
+
+            if any_never {
+                return Interest::never();
             }
 
             interest
